@@ -77,7 +77,7 @@ def regen(prop: str, seed: int, tier: str, s: int, wid: int, hashseed: int, scra
 
 
 def report_cross(prop: str, seed: int, tier: str, xviol: list[dict], hs_of: dict, scratch: str, known: list[dict],
-                 out: dict) -> int:
+                 out: dict, ctx: dict | None = None) -> int:
     rc = 0
     seen: dict[str, int] = {}
     done_sigs: set = set()
@@ -118,6 +118,20 @@ def report_cross(prop: str, seed: int, tier: str, xviol: list[dict], hs_of: dict
         rep = replay_values(doc, scratch)
         doc["fresh_replay_values"] = rep
         doc["fresh_replay_reproduces"] = rep[0] != rep[1]
+        if not doc["fresh_replay_reproduces"] and ctx is not None:
+            # agree when run alone: the difference needs what each interpreter executed before (history)
+            pa, pb = M.prefix_candidates(ctx, s, w1), M.prefix_candidates(ctx, s, w2)
+            doc["cases"] = [r1["case"], r2["case"]]
+            for i in range(max(len(pa), len(pb))):
+                doc["prefixes"] = [pa[min(i, len(pa) - 1)] if pa else None, pb[min(i, len(pb) - 1)] if pb else None]
+                rep = replay_values(doc, scratch)
+                if rep[0] != rep[1]:
+                    doc["fresh_replay_values"] = rep
+                    doc["fresh_replay_reproduces"] = True
+                    doc["history_needed"] = "the two interpreters agree when the case is executed alone; they differ only after the listed scenarios were executed before it (state kept by the code under test between calls)"
+                    break
+            else:
+                doc.pop("prefixes", None)
         with open(path, "w") as f:
             json.dump(doc, f, indent=1, sort_keys=True)
         print(f"VIOLATION property={prop} replay={path}")
@@ -133,10 +147,11 @@ def report_cross(prop: str, seed: int, tier: str, xviol: list[dict], hs_of: dict
 
 def replay_values(doc: dict, scratch: str) -> list:
     vals = []
-    for case, hs in zip(doc["cases"], doc["hashseeds"]):
+    prefixes = doc.get("prefixes") or [None, None]
+    for case, hs, prefix in zip(doc["cases"], doc["hashseeds"], prefixes):
         tmp = os.path.join(scratch, f"pair-{hs}.json")
         with open(tmp, "w") as f:
-            json.dump({"case": case}, f)
+            json.dump({"case": case, "prefix": prefix}, f)
         a = {"mode": "replay", "file": tmp, "out": tmp + ".out", "hashseed": hs, "hard_timeout": 300}
         r = M.run_one(a, hs, timeout=300)
         vals.append(r.get("xv", r.get("xd", {})).get(doc["key"]))
